@@ -19,7 +19,8 @@ SPEC = dict(
                 "on a frame boundary reads as io.EOF on the bare Noise and TLS connections (no authenticated end of stream; crypto/tls "
                 "accepts a FIN on a record boundary); after a read deadline expired on a reader only 'never wrong data, EOF only at the "
                 "real end' is demanded of it, and a reader of the bare Noise / PSK connection whose deadline expired in the middle of a "
-                "frame stops (observation probe, deadlines are outside the property's quantifier); (0, nil) reads are tolerated; an error wrapping io.EOF after the last byte counts as the end. "
+                "frame stops (observation probe, deadlines are outside the property's quantifier); (0, nil) reads are tolerated; after a Write timed out, Noise / TLS / the opener's first (handshake-carrying) host write "
+                "cannot resume (observation probes, only 'never wrong data' is left for that direction), pnet gets the deadline on its first Write only; an error wrapping io.EOF after the last byte counts as the end. "
                 "Combinations covered: TCP x {Noise, TLS} x yamux (swarm and host streams), QUIC (host streams), the bare Noise / TLS / PSK "
                 "connections. The TCP mux/host layers run the listener through the shared-TCP path (real TcpTransport.Listen, tcpreuse demultiplexer, "
                 "sampledconn peek) in half of the runs. Not covered: PSK underneath the upgrader (C04 runs it), reads of sampledconn's peeked "
@@ -40,7 +41,8 @@ SPEC = dict(
           "the connection when it is done while the other side's readers lag), link chunking (whole | fragment | 1-3 bytes), 1-4 streams, "
           "per (stream, direction) 0-5 writes with sizes biased to 0, 1, 65518-65520, 65535-65537, 2x and 3x+1 Noise frames, the yamux "
           "window and the yamux-frame = Noise-frame edge, and a cycle of read-buffer sizes biased to 1, 2, 15-17, pending frame -17..+1, "
-          "64Ki+-1, 1Mi with 0-64 bytes of spare capacity; zero-length buffers in the cycle; on bare connections optionally a second writer task per direction (payload keyed per write, "
+          "64Ki+-1, 1Mi with 0-64 bytes of spare capacity; zero-length buffers in the cycle; optionally (clean / timing strata) a write deadline that has passed - or expires in the middle "
+          "of a write larger than the yamux window with a late reader - after which the writer lifts it and continues from b[n:]; on bare connections optionally a second writer task per direction (payload keyed per write, "
           "any order of whole writes accepted); per raw endpoint whether the final bytes arrive together with io.EOF; on the TCP mux/host layers whether the listener uses the shared-TCP path "
           "(sampledconn peek; optionally 1-3 byte deliveries into the peek and 0-2 sick dials that end inside it); on "
           "Noise-based layers a prelude of 0-3 sacrificial Noise sessions closed with queued plaintext, closed twice / read after Close; non-trivial = a fault fired or at least two Reads returned data; distinct = "
@@ -50,7 +52,8 @@ SPEC = dict(
             "read-after-eof", "tamper-detected", "short-read", "zero-byte-read", "read-timeout", "lazy-multistream-stream",
             "write-reaching-yamux-window",
             "layer-noise", "layer-tls", "layer-pnet", "layer-mux-noise", "layer-mux-tls", "layer-host-noise", "layer-host-tls", "layer-host-quic",
-            "quic-wire-faults-survived-every-byte-delivered", "quic-reader-got-an-error-under-wire-faults", "connection-closed-abruptly", "shared-tcp-listener",
+            "quic-wire-faults-survived-every-byte-delivered", "quic-reader-got-an-error-under-wire-faults", "connection-closed-abruptly", "shared-tcp-listener", "write-deadline-then-carry-on", "write-timed-out-part-way",
+            "observation:write-deadline-ended-the-session/noise", "observation:write-deadline-ended-the-session/tls",
             "sick-dial-0-bytes", "sick-dial-1-bytes", "sick-dial-2-bytes", "sick-dial-3-bytes", "sick-dial-4-bytes",
             "stratum-clean", "stratum-timing", "stratum-stall", "stratum-adversary", "stratum-peer-close",
             "two-writers-on-one-connection", "zero-length-read", "zero-length-read-inside-a-frame",
